@@ -47,6 +47,27 @@ pub mod verif_vec_trace {
         TRACE.with(|t| core::mem::take(&mut *t.borrow_mut()))
     }
 }
+/// Verification hook: the histogram of code lengths before and after every
+/// `enforce_max_code_size` call made by `optimize_table`, per thread:
+/// `(before, after, code_list_len, max_code_size)`.
+#[cfg(all(miniz_oxide_verif, feature = "std"))]
+pub mod verif_huff_trace {
+    pub type Ev = ([i32; 33], [i32; 33], usize, usize);
+    std::thread_local! {
+        static TRACE: core::cell::RefCell<std::vec::Vec<Ev>> = const { core::cell::RefCell::new(std::vec::Vec::new()) };
+    }
+    pub fn push(before: [i32; 33], after: [i32; 33], len: usize, max: usize) {
+        TRACE.with(|t| {
+            let mut t = t.borrow_mut();
+            if t.len() < 4096 {
+                t.push((before, after, len, max));
+            }
+        });
+    }
+    pub fn take() -> std::vec::Vec<Ev> {
+        TRACE.with(|t| core::mem::take(&mut *t.borrow_mut()))
+    }
+}
 #[cfg(feature = "serde")]
 pub mod serde;
 mod shared;
